@@ -178,15 +178,37 @@ def _chk_atoms(formula: T) -> List[T]:
             if a.op == "call" and tm.callee_name(a) == CHK]
 
 
+def _chk_switch(c: T) -> Optional[T]:
+    """the value a check call passes to the check's own on/off switch"""
+    model = _CHK_MODEL[0]
+    if model is None or model[3] is None:
+        return None
+    kw = dict(c.args[2])
+    if model[3] in kw:
+        return kw[model[3]]
+    return c.args[1][1] if len(c.args[1]) > 1 else None
+
+
 def _confirm_flags(formula: T) -> List[T]:
-    """parameters that sit in the same and/or node as a prompt literal:
-    the flag(s) that switch the confirmation on"""
+    """parameters that sit in the same and/or node as a prompt literal, or
+    are handed to the check's own switch: the flag(s) that switch the
+    confirmation on"""
     flags = []
+    for c in _chk_atoms(formula):
+        sw = _chk_switch(c)
+        if sw is not None and sw.op == "param" and sw not in flags:
+            flags.append(sw)
     for n in formula.walk():
         if n.op not in ("and", "or"):
             continue
         lits = [a.args[0] if a.op == "not" else a for a in n.args]
-        if any(l.op == "call" and tm.callee_name(l) == CHK for l in lits):
+        def is_prompt(l: T) -> bool:
+            # the check itself, or its outcome compared with a constant
+            return (l.op == "call" and tm.callee_name(l) == CHK) or (
+                l.op == "cmp" and any(
+                    x.op == "call" and tm.callee_name(x) == CHK
+                    for x in (l.args[1], l.args[2])))
+        if any(is_prompt(l) for l in lits):
             for l in lits:
                 if l.op == "param" and l not in flags:
                     flags.append(l)
@@ -240,6 +262,10 @@ def tilde_stable(p: T) -> bool:
         return True
     if is_call_to(p, "os.path.join") and p.args[1]:
         return tilde_stable(p.args[1][0])
+    if is_call_to(p, "os.path.expandvars", "os.path.normpath", "os.fspath",
+                  "builtins.str") and len(p.args[1]) == 1:
+        # leave the beginning of an already expanded path alone
+        return tilde_stable(p.args[1][0])
     return classify_path(p) != "user"
 
 
@@ -248,6 +274,25 @@ def tilde_stable(p: T) -> bool:
 # helper(<asked path>) writes the file the prompt was about
 _CHK_RESOLVER: List[Optional[str]] = [None]
 _EXPANDING: set = set()     # evo helpers whose result went through expanduser
+
+
+_CHK_EXAMINED: List[Optional[tuple]] = [None]
+
+
+def _find_chk_examined(prog):
+    g = prog.func(CHK)
+    p = tm.param(g.params[0])
+    from ..lib import extra_defaults
+    xd = extra_defaults(g, g.params[:1], prog) or {}
+    r = Interp(prog).run(g, dict(xd))
+    seen = []
+    for a in r.ret.walk():
+        if is_call_to(a, "os.path.isfile", "os.path.exists") and a.args[1]:
+            x = a.args[1][0]
+            if x is not p and any(y is p for y in x.walk()) and \
+                    not any(x is z for z in seen):
+                seen.append(x)
+    return (p, seen[0]) if len(seen) == 1 else None
 
 
 def _find_chk_resolver(prog) -> Optional[str]:
@@ -284,6 +329,13 @@ def _same_file(asked: T, path: T, kind: str) -> bool:
             tm.callee_name(path) == res and path.args[1] and \
             path.args[1][0] is asked:
         return True
+    # the file the check examines, as an expression of its argument (helpers
+    # looked through): the sink writes that very expression of `asked`
+    ex = _CHK_EXAMINED[0]
+    if ex is not None:
+        g_p, x = ex
+        if x.map(lambda t: asked if t is g_p else None) is bare(path):
+            return True
     return kind in PANDAS_KINDS and _is_expanded(asked, of=path)
 
 
@@ -308,6 +360,103 @@ def _isinstance_of(a: T, given: str) -> Optional[bool]:
     return any(n in mine for n in names)
 
 
+# what check_and_confirm_overwrite returns when the user declines / accepts
+# / is not asked (no file): (False, True, True) on the pinned tree; set from
+# the function itself in check() — an enumeration of outcomes works as well
+_CHK_MODEL: List[Optional[tuple]] = [None]
+
+
+def _chk_outcomes(prog):
+    """(declined, accepted, not-needed) result terms of the check function
+    for a str path, or None if its cases are not recognised"""
+    g = prog.func(CHK)
+    from ..lib import extra_defaults
+    extra = extra_defaults(g, g.params[:1], prog)
+    if extra is None:
+        return None
+    ret = Interp(prog).run(g, dict(extra)).ret
+    # a switch the callers hand their confirm flag to (enabled=True): off,
+    # the check must answer like "nothing to overwrite"
+    off = None
+    switches = [k for k, v in extra.items() if tm.is_const(v, True)]
+    if len(switches) == 1:
+        off = Interp(prog).run(g, dict(extra, **{switches[0]:
+                                                 const(False)})).ret
+        if off.op not in ("const", "enum"):
+            return None
+    elif extra:
+        return None
+    p = tm.param(g.params[0])
+    tests = [a for a in ret.walk()
+             if is_call_to(a, "os.path.isfile", "os.path.exists",
+                           ".is_file", ".exists")]
+    confirms = []
+    for a in ret.walk():
+        if a.op == "call" and tm.callee_name(a) == CONFIRM and \
+                not any(a is c for c in confirms):
+            confirms.append(a)
+    if not tests or len(confirms) != 1:
+        return None
+
+    def world(exists, answer):
+        def assign(a: T):
+            if is_call_to(a, "builtins.isinstance"):
+                return True
+            if any(a is t for t in tests):
+                return exists
+            if a is confirms[0]:
+                return answer
+            return None
+        t = ret
+        for _ in range(6):
+            n = tm.deep_select(t, assign)
+            if n is t:
+                break
+            t = n
+        if t is confirms[0]:
+            t = const(bool(answer))
+        return t
+    dec, yes = world(True, False), world(True, True)
+    none_a, none_b = world(False, False), world(False, True)
+    ok = all(x.op in ("const", "enum") for x in (dec, yes, none_a)) and \
+        none_a is none_b
+    if off is not None and off is not none_a and off is not yes:
+        return None
+    return (dec, yes, none_a, switches[0] if off is not None else None) \
+        if ok else None
+
+
+def _chk_atom_value(a: T, c: T, R: T) -> Optional[bool]:
+    """truth of the guard atom `a` (the check call `c` itself, or a
+    comparison of it with a constant / enumeration member) when the check
+    returns R"""
+    def truth(v: T):
+        if v.op == "enum":
+            return True
+        return bool(v.args[1]) if tm.is_const(v) else None
+    if a is c:
+        return truth(R)
+    if a.op == "cmp" and (a.args[1] is c or a.args[2] is c):
+        other = a.args[2] if a.args[1] is c else a.args[1]
+        while other.op == "named":
+            other = other.args[1]
+        op = a.args[0]
+        if other.op in ("const", "enum"):
+            same = other is R or (tm.is_const(other) and tm.is_const(R) and
+                                  type(other.args[1]) is type(R.args[1]) and
+                                  other.args[1] == R.args[1])
+            if op in ("Is", "Eq"):
+                return same
+            if op in ("IsNot", "NotEq"):
+                return not same
+        if other.op in ("tuple", "list", "set") and op in ("In", "NotIn") \
+                and a.args[1] is c and all(
+                    z.op in ("const", "enum") for z in other.args):
+            inn = any(z is R for z in other.args)
+            return inn if op == "In" else not inn
+    return None
+
+
 def guard_fold(live: T, path: T, prompt: bool,
                confirm: bool = True, kind: str = "",
                given: Optional[str] = None) -> Optional[bool]:
@@ -316,11 +465,31 @@ def guard_fold(live: T, path: T, prompt: bool,
     as passed (the destination is a path, not a handle)"""
     flags = _confirm_flags(live)
 
+    model = _CHK_MODEL[0] or (const(False), const(True), const(True), None)
+
+    def outcomes(c: T):
+        """what the check call c can return in the world asked for"""
+        sw = _chk_switch(c)
+        if sw is not None and (sw in flags and not confirm or
+                               tm.is_const(sw, False)):
+            return (model[2],)         # switched off: as if nothing exists
+        return model[1:3] if prompt else model[:1]
+
     def assign(a: T) -> Optional[bool]:
         if a.op == "call" and tm.callee_name(a) == CHK:
             if a.args[1] and _same_file(a.args[1][0], path, kind):
-                return prompt
+                vals = {_chk_atom_value(a, a, R) for R in outcomes(a)}
+                return vals.pop() if len(vals) == 1 else None
             return None
+        if a.op == "cmp":
+            cs = [x for x in (a.args[1], a.args[2])
+                  if x.op == "call" and tm.callee_name(x) == CHK]
+            if len(cs) == 1:
+                c = cs[0]
+                if c.args[1] and _same_file(c.args[1][0], path, kind):
+                    vals = {_chk_atom_value(a, c, R) for R in outcomes(c)}
+                    return vals.pop() if len(vals) == 1 else None
+                return None
         if a.op == "call" and tm.callee_name(a) == "builtins.isinstance":
             if given is not None:
                 v = _isinstance_of(a, given)
@@ -340,6 +509,8 @@ def check(ctx):
     results = sweep(prog, "plain")
     ctx.analysed["functions_swept"] = len(results)
     _CHK_RESOLVER[0] = _find_chk_resolver(prog)
+    _CHK_MODEL[0] = _chk_outcomes(prog)
+    _CHK_EXAMINED[0] = _find_chk_examined(prog)
     _EXPANDING.clear()
     for q, res_ in results.items():
         f_ = res_.func
@@ -409,6 +580,17 @@ def check(ctx):
                f"{kind} in {q} reachable when the prompt is accepted "
                f"(file is replaced)",
                key=f"C17.5:dead-sink:{q}:{kind}", live=fmt(e.live))
+        fn_flags = [tm.param(p_) for p_ in res.func.params
+                    if p_ == "confirm_overwrite"]
+        if not _confirm_flags(e.live) and fn_flags and own and \
+                declined is False:
+            # the function has the switch, this sink's prompt ignores it
+            ctx.ob("C17.5", e, False,
+                   f"{kind} in {q}: the overwrite prompt in front of this "
+                   f"write does not depend on `confirm_overwrite` — even "
+                   f"with confirmation switched off (--no_warnings) the "
+                   f"user is asked and a 'no' drops the output",
+                   key=f"C17.5:asks-when-off:{q}:{kind}", live=fmt(e.live))
         if _confirm_flags(e.live):
             # "with warnings disabled the file is replaced": no answer is
             # needed (or asked for) when the confirm flag is off
@@ -689,7 +871,12 @@ def _check_prompt(ctx):
            key="C17.4:confirm-equality", ret=shape)
 
     g = prog.func(CHK)
-    r2 = Interp(prog).run(g)
+    from ..lib import extra_defaults
+    # (a switch added later is analysed at its default: on)
+    xd = extra_defaults(g, g.params[:1], prog)
+    ctx.require(xd is not None, "check_and_confirm_overwrite signature "
+                "changed")
+    r2 = Interp(prog).run(g, dict(xd))
     ret2 = r2.ret
     p = tm.param(g.params[0])
     ok2 = False
@@ -761,13 +948,38 @@ def _check_prompt(ctx):
             prompt = a.op == "call" and tm.callee_name(a) == CONFIRM
             nokey = prompt and not any(k == "key" for k, _ in a.args[2]) \
                 and len(a.args[1]) <= 1
+            if not prompt:
+                # the outcome as a value of its own (an enumeration ...):
+                # decided by the prompt alone, with distinguishable results
+                cs = []
+                for x in a.walk():
+                    if x.op == "call" and tm.callee_name(x) == CONFIRM and \
+                            not any(x is y for y in cs):
+                        cs.append(x)
+                if len(cs) == 1 and not any(
+                        k == "key" for k, _ in cs[0].args[2]) and \
+                        len(cs[0].args[1]) <= 1 and not any(
+                            x.op == "call" and tm.callee_name(x) == CONFIRM
+                            for x in b.walk()):
+                    yes = tm.deep_select(a, lambda t: True if (
+                        t is cs[0] or t in on_own) else None)
+                    no = tm.deep_select(a, lambda t: False if t is cs[0]
+                                        else (True if t in on_own else None))
+                    if all(x.op in ("const", "enum") for x in (yes, no, b)) \
+                            and no is not yes and no is not b and not (
+                                tm.is_const(no) and tm.is_const(b) and
+                                no.args[1] == b.args[1]) and not (
+                                tm.is_const(no) and tm.is_const(yes) and
+                                no.args[1] == yes.args[1]):
+                        continue
             if not (prompt and nokey and tm.is_const(b, True)):
                 ok2 = False
                 why = (f"for a {kind} path that exists the result is "
                        f"{fmt(a)[:80]}, for one that does not {fmt(b)[:40]}")
     ctx.ob("C17.4", g, ok2,
            "check_and_confirm_overwrite prompts iff os.path.isfile(path) and "
-           "returns the prompt's result, True otherwise, default key"
+           "returns the prompt's result (or an outcome that tells a declined "
+           "prompt from the others), default key"
            if ok2 else
            f"check_and_confirm_overwrite deviates: {why}",
            key="C17.4:check-and-confirm", ret=why)
